@@ -12,12 +12,57 @@ view or copy depends on the caller's index type, so it is judged inside its call
 """
 from .common import *
 from .. import own as OW
+from ..loader import dotted_of
 
 EXPLANATION = __doc__
 
 EXEMPT_WRITE = {("sempler.utils.cartesian", "out"): "documented output buffer (named in the property)"}
 EXEMPT_RETURN = {"sempler.utils.cartesian": "returns its output buffer",
                  "sempler.utils.matrix_block": "index kind decided by the caller; judged at its call sites"}
+
+
+MODEL_CLASSES = {"LGANM", "ANM", "NormalDistribution", "BayesianNetwork", "DRFNet"}
+
+
+def is_model_class(prog, f):
+    """the property speaks about the library's models; other (helper) classes may keep mutable state of their own"""
+    if f.cls is None:
+        return False
+    if f.cls in MODEL_CLASSES:
+        return True
+    info = f.module.classes.get(f.cls)
+    bases = [getattr(b, "id", getattr(b, "attr", None)) for b in (info or {}).get("bases", [])]
+    return any(b in MODEL_CLASSES for b in bases)
+
+
+def mutable_like_params(f):
+    """parameters the function treats as containers / arrays (subscripted, iterated, measured, used in arithmetic, given array
+    methods or handed to numpy): returning one of *those* hands the caller's storage back.  A parameter that is only passed on
+    (a path, a flag, a seed, a label) and returned is not storage."""
+    out = set()
+    params = set(f.params)
+    for n in ast.walk(f.node):
+        if isinstance(n, ast.Subscript) and isinstance(n.value, ast.Name) and n.value.id in params:
+            out.add(n.value.id)
+        elif isinstance(n, ast.Attribute) and isinstance(n.value, ast.Name) and n.value.id in params:
+            out.add(n.value.id)
+        elif isinstance(n, (ast.For, ast.comprehension)) and isinstance(n.iter, ast.Name) and n.iter.id in params:
+            out.add(n.iter.id)
+        elif isinstance(n, ast.BinOp):
+            for x in (n.left, n.right):
+                if isinstance(x, ast.Name) and x.id in params:
+                    out.add(x.id)
+        elif isinstance(n, ast.Compare):
+            for x in [n.left] + list(n.comparators):
+                if isinstance(x, ast.Name) and x.id in params and not all(isinstance(o, (ast.Is, ast.IsNot)) for o in n.ops):
+                    out.add(x.id)
+        elif isinstance(n, ast.Call):
+            fn = dotted_of(n.func) or ""
+            if fn.split(".")[0] in ("np", "numpy") or fn in ("len", "list", "set", "sorted", "tuple", "sum", "min", "max", "zip", "enumerate", "deepcopy", "copy.deepcopy"):
+                for a in list(n.args) + [k.value for k in n.keywords]:
+                    if isinstance(a, ast.Name) and a.id in params:
+                        out.add(a.id)
+    return out
 
 
 def site_where(site):
@@ -60,6 +105,9 @@ def run(prog, rep, tier):
                     continue
                 if kind in ("S", "SE") and f.name == "__init__":
                     continue
+                if kind in ("S", "SE") and not is_model_class(prog, f):
+                    rep.notes.append("%s.%s updates its own object: not one of the library's models (%s), not judged" % (f.cls, f.name, ", ".join(sorted(MODEL_CLASSES))))
+                    continue
                 rule = {"P": "M1.param", "PE": "M1.param", "S": "M2.self", "SE": "M2.self", "D": "M5.default", "G": "M5.module-state", "U": "M1.callable-result"}[kind]
                 msg = "%s %s an object reachable from %s `%s` of %s%s" % (
                     w.how, "may write" if may else "writes", {"P": "parameter", "PE": "an element of parameter", "S": "self attribute",
@@ -94,6 +142,11 @@ def run(prog, rep, tier):
             bad = {l for l in (OW.caller_owned(top) | deep) if OW.strip_maybe(l)[0] in ("P", "S", "D", "G") or l in OW.caller_owned(top)}
             if isinstance(summ.ret, OW.ObjV) and summ.ret.tag == "self":
                 bad = {("S", "<self>")}
+            ml = mutable_like_params(f)
+            skipped = {l for l in bad if OW.strip_maybe(l)[0] in ("P", "PE") and l[1] not in ml}
+            if skipped:
+                rep.notes.append("%s returns its parameter %s, which it never treats as a container / array: not storage" % (f.qname, sorted(l[1] for l in skipped)))
+                bad = bad - skipped
             if bad and f.qname not in EXEMPT_RETURN:
                 if note_only:
                     rep.notes.append("NOTE drf: %s returns %s" % (f.qname, sorted(map(str, bad))))
@@ -113,6 +166,8 @@ def run(prog, rep, tier):
         w = {"file": rel, "line": target.lineno, "function": q, "construct": norm(target)}
         if func.module.name.startswith("drf"):
             continue
+        if not is_model_class(prog, func):
+            continue                 # helper classes (not the library's models) may keep state of their own
         if func.name != "__init__":
             rep.bad("M2.rebind", w, "self.%s is rebound outside the constructor: the model changes under use" % attr)
             continue
